@@ -490,6 +490,10 @@ func (c *c14) checkAll(full bool) {
 		if !eq(got, byYear[y]) {
 			c.fail("VIEW_MISMATCH", "by_year/"+c.orderKey(), map[string]string{"year": fmt.Sprint(y), "expected": strings.Join(byYear[y], ", "), "got": strings.Join(got, ", ")})
 		}
+		// the generic prefix API with a year string is the same view
+		if got := renderL(HolidayUtil.GetHolidays(fmt.Sprintf("%04d", y))); !eq(got, byYear[y]) {
+			c.fail("VIEW_MISMATCH", "by_year/"+c.orderKey(), map[string]string{"year": fmt.Sprint(y), "api": "GetHolidays(\"YYYY\")", "expected": strings.Join(byYear[y], ", "), "got": strings.Join(got, ", ")})
+		}
 		for mo := 1; mo <= 12; mo++ {
 			if !full && len(byYear[y]) == 0 {
 				continue
@@ -499,6 +503,11 @@ func (c *c14) checkAll(full bool) {
 			got := renderL(HolidayUtil.GetHolidaysByYm(y, mo))
 			if !eq(got, byYm[k]) {
 				c.fail("VIEW_MISMATCH", "by_ym/"+c.orderKey(), map[string]string{"month": k, "expected": strings.Join(byYm[k], ", "), "got": strings.Join(got, ", ")})
+			}
+			for _, key := range []string{k, undash(k)} {
+				if got := renderL(HolidayUtil.GetHolidays(key)); !eq(got, byYm[k]) {
+					c.fail("VIEW_MISMATCH", "by_ym/"+c.orderKey(), map[string]string{"month": k, "api": "GetHolidays(" + key + ")", "expected": strings.Join(byYm[k], ", "), "got": strings.Join(got, ", ")})
+				}
 			}
 		}
 	}
@@ -517,6 +526,9 @@ func (c *c14) checkAll(full bool) {
 		got2 := renderH(HolidayUtil.GetHolidayByYmd(t.Year(), int(t.Month()), t.Day()))
 		if got2 != want {
 			c.fail("VIEW_MISMATCH", "by_day", map[string]string{"day": ds, "api": "GetHolidayByYmd", "expected": want, "got": got2})
+		}
+		if got3 := renderH(HolidayUtil.GetHoliday(undash(ds))); got3 != want {
+			c.fail("VIEW_MISMATCH", "by_day", map[string]string{"day": ds, "api": "GetHoliday(\"YYYYMMDD\")", "expected": want, "got": got3})
 		}
 		l := renderL(HolidayUtil.GetHolidays(ds))
 		var wantL []string
@@ -543,6 +555,9 @@ func (c *c14) checkAll(full bool) {
 	for _, t := range targetsOrder {
 		c.checks++
 		got := renderL(HolidayUtil.GetHolidaysByTarget(t))
+		if g3 := renderL(HolidayUtil.GetHolidaysByTarget(undash(t))); !eq(g3, got) {
+			c.fail("VIEW_MISMATCH", "by_target/dashed_and_undashed_keys_differ", map[string]string{"target": t, "dashed": strings.Join(got, ", "), "undashed": strings.Join(g3, ", ")})
+		}
 		tt := dayTime(t)
 		got2 := renderL(HolidayUtil.GetHolidaysByTargetYmd(tt.Year(), int(tt.Month()), tt.Day()))
 		want := byTarget[t]
